@@ -129,6 +129,21 @@ def gen_script(rng, mesh, n_ops, manifold, sort):
         return [k]
 
     ops = [one() for _ in range(n_ops)]
+    for o in ops:
+        if o[0] == "face_id" and rng.random() < 0.5:
+            o[0] = rng.choice(["face_id_t", "face_id_l"])        # face_id((a,b,c)) / face_id([a,b,c])
+    if rng.random() < 0.3:                                        # the same call two or three times in a row / again later
+        for _ in range(rng.randint(1, 4)):
+            o = list(rng.choice(ops))
+            k = rng.randrange(len(ops) + 1)
+            ops[k:k] = [o] * rng.choice([1, 2])
+            ops.append(list(o))
+    if rng.random() < 0.12:                                       # an out-of-range id in between: state afterwards intact
+        for _ in range(rng.randint(1, 2)):
+            o = rng.choice([["bad:face_to_cells", nf + rng.randint(0, 5)], ["bad:cell_to_face", nc + rng.randint(0, 3)],
+                            ["bad:cell_to_cell", nc + 1], ["bad:edge", ne + rng.randint(0, 4), "cf"],
+                            ["bad:is_vertex_on_border", nv + 2], ["bad:vertex_to_cell", nv], ["bad:is_edge_on_border", ne]])
+            ops.insert(rng.randrange(len(ops) + 1), o)
     if rng.random() < 0.75:
         ops.insert(rng.randrange(len(ops) + 1), ["enable_bc"])
     if rng.random() < 0.75:
@@ -158,17 +173,37 @@ def full_script(mesh, first=None):
 
 
 def gen_case(rng, big=False):
+    if rng.random() < 0.05:
+        mesh, F0 = G.fan_with_cell0_inside(rng)
+        edge_ids = {tuple(sorted(t)): i for i, t in enumerate(counts(mesh)[1])}
+        case = {"argrep": "int", "scale_exp": 0, "collide": False, "degenerate": False, "V": mesh["V"], "C": mesh["C"],
+                "F0": F0, "E0": [], "kind": rng.choice(KINDS), "sort": True,
+                "script": gen_script(rng, mesh, 6, True, True) + [["edge", e, rng.choice(["cf", "fc"])] for e in range(len(edge_ids))],
+                "tags": ["seed=fan-with-cell-0-inside"], "edge_manifold": True}
+        return case
     mesh, tags = G.gen_mesh(rng, big=big)
     manifold = G.edge_manifold(mesh)
     sort = rng.random() < 0.75
     kind = rng.choice(KINDS)
     n_ops = rng.choice([3, 8, 15, 25])
+    if rng.random() < 0.05:
+        G.pad_vertices(rng, mesh, rng.randint(258, 272))          # vertex ids beyond 256
+        tags.append("ids>256")
     F0, E0 = G.declare(rng, mesh)
     if F0:
         tags.append("declared-faces")
     if E0:
         tags.append("declared-edges")
-    case = {"V": mesh["V"], "C": mesh["C"], "F0": F0, "E0": E0, "kind": kind, "sort": sort,
+    extra = {"argrep": rng.choice(["int", "int", "np.int64", "np.int32", "np.uint8"]),
+             "scale_exp": rng.choice([0, 0, 0, -30, 40]), "collide": rng.random() < 0.1, "degenerate": False}
+    if rng.random() < 0.05:
+        z = rng.choice(["point", "flat"])
+        mesh["V"] = [[0, 0, 0] if z == "point" else [p[0], p[1], 0] for p in mesh["V"]]
+        extra["degenerate"] = True
+        tags.append("degenerate-geometry")
+    for k2 in ("argrep", "scale_exp", "collide"):
+        tags.append("%s=%s" % (k2, extra[k2]))
+    case = {**extra, "V": mesh["V"], "C": mesh["C"], "F0": F0, "E0": E0, "kind": kind, "sort": sort,
             "script": gen_script(rng, mesh, n_ops, manifold, sort), "tags": tags, "edge_manifold": manifold}
     return case
 
@@ -223,6 +258,10 @@ def case_term(case, obs):
     qs = []
     bc = ex = "None"
     for op, a in zip(case["script"], obs["answers"]):
+        if op[0].startswith("bad:"):
+            continue
+        if op[0] in ("face_id_t", "face_id_l"):
+            op = ["face_id"] + list(op[1:])
         if op[0] == "edge":
             qs.append("(QEdge %d, %s)" % (op[1], ans_term(a)))
         elif op[0] == "enable_bc":
@@ -259,7 +298,7 @@ def case_term(case, obs):
 # ---------------------------------------------------------------------- running
 def run_batch(cases, timeout=900):
     nsh = max(1, min(core.NCPU, len(cases) // 12))
-    payloads = [{"cases": [{k: c.get(k) for k in ("V", "C", "F0", "E0", "kind", "sort", "script")} for c in cases[i::nsh]]} for i in range(nsh)]
+    payloads = [{"cases": [{k: c.get(k) for k in ("V", "C", "F0", "E0", "kind", "sort", "script", "argrep", "scale_exp", "collide", "degenerate")} for c in cases[i::nsh]]} for i in range(nsh)]
     results = core.run_impl_parallel(DRIVER, payloads, timeout=timeout)
     obs = [None] * len(cases)
     for i, r in enumerate(results):
@@ -269,7 +308,7 @@ def run_batch(cases, timeout=900):
 
 
 def run_one(case):
-    return core.run_impl(DRIVER, {"cases": [{k: case.get(k) for k in ("V", "C", "F0", "E0", "kind", "sort", "script")}]}, timeout=120)["obs"][0]
+    return core.run_impl(DRIVER, {"cases": [{k: case.get(k) for k in ("V", "C", "F0", "E0", "kind", "sort", "script", "argrep", "scale_exp", "collide", "degenerate")}]}, timeout=120)["obs"][0]
 
 
 def which_fail(cands, key):
@@ -277,7 +316,7 @@ def which_fail(cands, key):
     if not cands:
         return []
     try:
-        obs = core.run_impl(DRIVER, {"cases": [{k: c.get(k) for k in ("V", "C", "F0", "E0", "kind", "sort", "script")} for c in cands]},
+        obs = core.run_impl(DRIVER, {"cases": [{k: c.get(k) for k in ("V", "C", "F0", "E0", "kind", "sort", "script", "argrep", "scale_exp", "collide", "degenerate")} for c in cands]},
                             timeout=300)["obs"]
     except Exception:
         return []
@@ -341,7 +380,7 @@ WITNESS = {"V": [[0, 0, 0], [1, 0, 0], [0, 1, 0], [0, 0, 1], [0, -1, 0], [0, 0, 
 
 def run(ctx):
     quick = ctx.tier == "quick"
-    n_cases = 320 if quick else 10000
+    n_cases = 260 if quick else 9000
     ctx.rule = ("tetrahedral meshes from seeds (single tet, 5-/6-tet cubes, cube grids, two tets glued along an edge or a "
                 "vertex) under conformity-preserving edits (cell 1->4, face split, edge split, cell deletion), random "
                 "renumbering, random cell order, random vertex order in each cell (random / all positive / all negative), "
@@ -425,7 +464,7 @@ def run(ctx):
         ctx.violation(m2[0] if m2 else msg, {"case": small, "observed": ob, "class": key}, key=key)
     if bad and not fails:
         for i in bad[:3]:
-            ctx.log("model/implementation disagreement on case %d: %s" % (i, json.dumps({k: cases[i].get(k) for k in ("V", "C", "F0", "E0", "kind", "sort", "script")})))
+            ctx.log("model/implementation disagreement on case %d: %s" % (i, json.dumps({k: cases[i].get(k) for k in ("V", "C", "F0", "E0", "kind", "sort", "script", "argrep", "scale_exp", "collide", "degenerate")})))
             ctx.log("   observed: " + json.dumps(obs[i])[:1500])
         ctx.notes.append("model and implementation disagree on cases %s although the oracle accepts the implementation's answers" % bad[:10])
     if bad is None:
@@ -439,7 +478,7 @@ def replay(ctx, data):
         return 1
     ob = run_one(case)
     fl = O.check(case, ob)
-    print("case:", json.dumps({k: case.get(k) for k in ("V", "C", "F0", "E0", "kind", "sort", "script")}))
+    print("case:", json.dumps({k: case.get(k) for k in ("V", "C", "F0", "E0", "kind", "sort", "script", "argrep", "scale_exp", "collide", "degenerate")}))
     print("observed:", json.dumps(ob)[:3000])
     for k, m in fl:
         print("FAILS [%s]: %s" % (k, m))
